@@ -108,3 +108,173 @@ class HasLoadDependencies(Contract):
 
 def OPC_of(x):
     return x.term
+
+
+# ---- _apply_slot_to_stack ---------------------------------------------------------------------------------------------------------
+NSL = z3.Function("numSlotsOf", I_, I_)
+FST = z3.Function("firstSlotOf", I_, I_)
+ALLSKIP = z3.Function("allSlotsSkipped", I_, z3.BoolSort())
+HASDEP = z3.Function("anotherLoadExists", I_, I_, z3.BoolSort())      # meaning of _has_load_dependencies(cur_block, start, slot, pos) (its own contract)
+NSTORES = z3.Function("storesOfSlotInRoutine", I_, I_)               # number of `store` ops of a slot in the routine
+G = "_apply_slot_to_stack"
+
+
+class SlotList:
+    """op.getSlots(): a list whose length and first element are uninterpreted functions of the op"""
+
+    def __init__(self, op, cls):
+        self.op, self.cls = op, cls
+
+    def pyvc_len(self):
+        return NSL(self.op.term)
+
+    def pyvc_index(self, I, idx, node):
+        if not (isinstance(idx, int) and idx == 0):
+            raise Unsupported("getSlots()[i] with i != 0")
+        return SRef(FST(self.op.term), self.cls)
+
+
+class SlotSet:
+    """set(op.getSlots())"""
+
+    def __init__(self, op):
+        self.op = op
+
+    def pyvc_method(self, I, name, args, kwargs, node):
+        if name != "issubset" or len(args) != 1 or not isinstance(args[0], SSet):
+            raise Unsupported(f"set(getSlots()).{name}")
+        skip = args[0]
+        t = self.op.term
+        # one-slot ops (every store / load): the set is {first}
+        I.ctx.assume(z3.Implies(NSL(t) == 1, ALLSKIP(t) == skip.contains(FST(t))))
+        return ALLSKIP(t)
+
+
+class ApplySlotToStack(Contract):
+    """The set handed to _remove_extraneous_slot_access contains only slots s such that
+         (a) s is not in skip_slots,
+         (b) cur_block has `store s` immediately followed by `load s` (both real TealOps with exactly one slot),
+         (c) the pair's load is the only load of s in the routine (the callee _has_load_dependencies is used with its own contract O3.5),
+         (d) s is stored nowhere else in the routine  -- removing every access of s is only then the same as cancelling the pair.
+       (d) is what the property needs and what the code does not establish: the recorded finding O3.4."""
+    target = "pyteal.compiler.optimizer.optimizer._apply_slot_to_stack"
+
+    def __init__(self):
+        from pyteal.ir import TealBlock, TealOp, Op
+        from pyteal.ast import ScratchSlot
+        from pyteal.errors import TealInternalError
+        from pyteal.compiler.optimizer import optimizer as O
+        self.TealBlock, self.TealOp, self.Op, self.ScratchSlot = TealBlock, TealOp, Op, ScratchSlot
+        self.codes = {m: i for i, m in enumerate(Op)}
+        self.raises_only = (TealInternalError,)
+        self.callees = {
+            ("type", TealOp): self.c_type,
+            TealOp.__dict__["getSlots"]: lambda I, args, kwargs: SlotList(args[0], ScratchSlot),
+            set: self.c_set,
+            O._has_load_dependencies: self.c_hasdep,
+            O._remove_extraneous_slot_access: self.c_remove,
+        }
+        self.fields = {(TealBlock, "ops"): self.f_ops, (TealOp, "op"): lambda ctx, ref: SRef(OPC(ref.term), Op)}
+        self.var_kinds = {(G, "slots_to_remove"): lambda ctx, v: self.fresh_set(ctx)}
+        self.loops = {(G, 0): LoopSpec(inv=self.inv, modifies=("slots_to_remove",))}
+
+    def fresh_set(self, ctx):
+        s = SSet(REF(self.ScratchSlot), name="slots_to_remove")
+        x = z3.Int("x0!")
+        ctx.assume(z3.ForAll([x], z3.Not(z3.Select(s.member, x))))
+        ctx.assume(s.card == 0)
+        return s
+
+    def f_ops(self, ctx, ref):
+        l = stamp(SList(REF(self.TealOp), arr=OPSARR(ref.term), length=OPSLEN(ref.term), name="ops"))
+        ctx.assume(OPSLEN(ref.term) >= 0)
+        return l
+
+    def c_type(self, I, ref):
+        return self.TealOp if I.ctx.branch(ISOP(ref.term)) else object
+
+    def c_set(self, I, args, kwargs):
+        if len(args) == 0:
+            return self.fresh_set(I.ctx)
+        if len(args) == 1 and isinstance(args[0], SlotList):
+            return SlotSet(args[0].op)
+        raise Unsupported("set() of something else")
+
+    def c_hasdep(self, I, args, kwargs):
+        cur, start, slot, pos = args
+        g = I.ctx.ghost
+        if not (isinstance(cur, SRef) and cur.term is g["cur"].term and isinstance(start, SRef) and start.term is g["start"].term):
+            I.ctx.oblige("dependency-check-is-about-this-block-and-routine", z3.And(cur.term == g["cur"].term, start.term == g["start"].term))
+        # the callee's own contract (HasLoadDependencies, O3.5): True iff a load of the slot exists at another place than (cur_block, pos)
+        r = I.ctx.fresh_bool("hasdep") if hasattr(I.ctx, "fresh_bool") else z3.Bool(fresh_name("hasdep"))
+        I.ctx.assume(r == self.other_load_exists(I.ctx, unwrap(slot), unwrap(pos)))
+        return r
+
+    def c_remove(self, I, args, kwargs):
+        start, remove = args
+        I.ctx.oblige("removal-covers-the-routine-the-check-was-made-for", start.term == I.ctx.ghost["start"].term)
+        I.ctx.ghost["removed"] = remove
+        return None
+
+    def setup(self, ctx, I):
+        I.engine.eq_handlers[self.Op] = lambda I_, x, y: (OPC_of(x) == self.codes[y]) if not isinstance(y, SRef) else (x.term == y.term)
+        cur = SRef(z3.Int("cur_block"), self.TealBlock)
+        start = SRef(z3.Int("start"), self.TealBlock)
+        skip = SSet(REF(self.ScratchSlot), name="skip_slots")
+        ctx.assume(z3.And(cur.term >= 0, start.term >= 0))
+        # the routine: the blocks reachable from `start`; cur_block is one of them (the caller iterates over them)
+        blocks = stamp(SList(REF(self.TealBlock), name="reachable"))
+        jc = z3.Int("jcur")
+        ctx.assume(z3.And(blocks.length >= 1, jc >= 0, jc < blocks.length, z3.Select(blocks.arr, jc) == cur.term))
+        # one-slot ops use exactly their first slot
+        o, y = z3.Int("o1!"), z3.Int("y1!")
+        ctx.assume(z3.ForAll([o, y], z3.Implies(NSL(o) == 1, USES(o, y) == (y == FST(o)))))
+        ctx.ghost.update(cur=cur, start=start, skip=skip, removed=None, blocks=blocks)
+        return {"args": [cur, start, skip]}
+
+    def is_other_load(self, ctx, x, p, b, i):
+        g = ctx.ghost
+        op = z3.Select(OPSARR(b), i)
+        return z3.And(z3.Not(z3.And(b == g["cur"].term, i == p)), ISOP(op), OPC(op) == self.codes[self.Op.load], USES(op, x))
+
+    def other_load_exists(self, ctx, x, p):
+        blocks = ctx.ghost["blocks"]
+        bj, i = z3.Int(fresh_name("bj")), z3.Int(fresh_name("oi"))
+        b = z3.Select(blocks.arr, bj)
+        return z3.Exists([bj, i], z3.And(bj >= 0, bj < blocks.length, i >= 0, i < OPSLEN(b), self.is_other_load(ctx, x, p, b, i)))
+
+    def justified(self, ctx, x, w):
+        """slot x is justified by the pair at positions w, w+1 of cur_block"""
+        g = ctx.ghost
+        ops = OPSARR(g["cur"].term)
+        a, b = z3.Select(ops, w), z3.Select(ops, w + 1)
+        return z3.And(w >= 0, w + 1 < OPSLEN(g["cur"].term),
+                      ISOP(a), OPC(a) == self.codes[self.Op.store], ISOP(b), OPC(b) == self.codes[self.Op.load],
+                      NSL(a) == 1, NSL(b) == 1, FST(a) == x, FST(b) == x,
+                      z3.Not(g["skip"].contains(x)), z3.Not(self.other_load_exists(ctx, x, w + 1)))
+
+    def inv(self, ctx, env, it):
+        s = env["slots_to_remove"]
+        x, w = z3.Int("xs!"), z3.Int("ws!")
+        return [("every-collected-slot-has-a-justifying-pair-before-here",
+                 z3.ForAll([x], z3.Implies(s.contains(x), z3.Exists([w], z3.And(w < it.k, self.justified(ctx, x, w))))))]
+
+    def post(self, ctx, I, outcome, st):
+        g = ctx.ghost
+        if outcome[0] == "raise":
+            i = z3.Int("ir!")
+            ops = OPSARR(g["cur"].term)
+            a, b = z3.Select(ops, i), z3.Select(ops, i + 1)
+            ctx.oblige("raises-only-for-a-store-load-pair-without-exactly-one-slot",
+                       z3.Exists([i], z3.And(i >= 0, i + 1 < OPSLEN(g["cur"].term), ISOP(a), OPC(a) == self.codes[self.Op.store], ISOP(b),
+                                             OPC(b) == self.codes[self.Op.load], z3.Or(NSL(a) != 1, NSL(b) != 1))))
+            return
+        removed = g["removed"]
+        if removed is None:
+            ctx.oblige("removal-function-is-called", z3.BoolVal(False))
+            return
+        x, w = z3.Int("xp!"), z3.Int("wp!")
+        ctx.oblige("removed-slots-are-justified-by-an-adjacent-store-load-pair-not-skipped-no-other-load",
+                   z3.ForAll([x], z3.Implies(removed.contains(x), z3.Exists([w], self.justified(ctx, x, w)))))
+        ctx.oblige("removed-slots-are-stored-nowhere-else",
+                   z3.ForAll([x], z3.Implies(removed.contains(x), NSTORES(x) == 1)))
